@@ -291,8 +291,10 @@ def main(argv=None):
     cov.update(res.get("extra", {}))
     doc = dict(property_id=prop, tier=tier, seed=int(a.seed), level="proof", coverage=cov,
                assumptions=list(getattr(mod, "ASSUMPTIONS", [])), wall_s=round(wall, 2), violations=nviol)
-    os.makedirs(os.path.join(VERIF, "evidence"), exist_ok=True)
-    with open(os.path.join(VERIF, "evidence", prop + ".json"), "w") as fh:
+    # runs against a deliberately modified tree (tools/try_mutant.sh) must not overwrite the evidence of the real tree
+    evdir = os.environ.get("VERIF_EVIDENCE_DIR") or os.path.join(VERIF, "evidence")
+    os.makedirs(evdir, exist_ok=True)
+    with open(os.path.join(evdir, prop + ".json"), "w") as fh:
         json.dump(doc, fh, indent=1, default=str)
     print("%s %s: %d/%d proof obligations, %d cases (%d non-trivial), %d known findings seen, %d violations, %.1fs" % (
         prop, tier, discharged, obligations, cov["evaluations"], cov["distinct_nontrivial"], len(seen_known), nviol, wall))
